@@ -17,7 +17,8 @@ def main():
         mod = importlib.import_module(case[0]); fn = getattr(mod, case[1])
         args = case[2]
         def tup(x): return tuple(tup(y) for y in x) if isinstance(x, list) else x
-        r = fn(tup(args))
+        from bounded.runner import _guarded
+        r = _guarded((fn, tup(args)))          # same watchdog as in the check: a call that does not come back is the recorded failure again
         same = [g for g in r.get("failures", []) if g.get("key") == f.get("key")]
         for g in r.get("failures", [])[:5]: print("  %s :: %s" % (g.get("key"), str(g.get("text"))[:300]))
         if same:
